@@ -1545,6 +1545,8 @@ def gen_op(kind, sh, rng, cfg, state):
     if kind == 'add_proc':
         pi = rng.randrange(len(cfg['pinsts']))
         prio = None if rng.random() < .4 else rng.randint(-2, 2)
+        if prio is not None and rng.random() < .08:
+            prio = rng.choice([100, -50, 2 ** 40, -3, 7])
         return ['add_proc', pi, prio]
     if kind == 'remove_proc':
         return ['remove_proc', rng.choice([-1] + list(
